@@ -140,8 +140,17 @@ func runPingCase(pc pingCase) (string, string) {
 func runC15(ctx *runCtx) {
 	rep := ctx.rep
 	rep.Rule = "receive side: streams with Ping frames of every payload length 0..125 placed before, between and inside fragmented (compressed) messages, read by an explicit reader; ground truth: one Pong per Ping, same payload, same order, nothing for Pongs. " +
-		"Ping API: 1..12 outstanding Ping calls against a raw peer that answers in reverse / shuffled order, duplicates pongs, withholds some, or sends foreign and unsolicited pongs first; each call must return nil iff its own pong was sent; both roles; CloseRead or explicit reader. distinct = case tuple"
+		"Ping API: 1..12 outstanding Ping calls against a raw peer that answers in reverse / shuffled order, duplicates pongs, withholds some, or sends foreign and unsolicited pongs first; each call must return nil iff its own pong was sent; both roles; CloseRead or explicit reader. Ping registry programs (calls starting, Pongs with own / other calls' / future / look-alike / non-UTF-8 / empty payloads arriving, calls giving up, in generated orders) against by-construction ground truth and the Lean registry model. distinct = case tuple"
 	if ctx.replay != "" {
+		var pp pingProg
+		if err := loadReplay(ctx.replay, &pp); err == nil && len(pp.Evs) > 0 {
+			var l, w2 string
+			if sh, w := runPingProg(pp, &l, &w2); sh != "" {
+				rep.violate(Violation{Kind: "property", Shape: sh, What: w, Replay: pp})
+			}
+			rep.eval("replay")
+			return
+		}
 		var pc pingCase
 		if err := loadReplay(ctx.replay, &pc); err == nil && pc.N > 0 {
 			if sh, w := runPingCase(pc); sh != "" {
@@ -234,4 +243,48 @@ func runC15(ctx *runCtx) {
 	}
 	rep.sample(pcs[0])
 	_ = websocket.MessageText
+	// Ping registry programs vs ground truth and the Lean registry model
+	np := 40
+	if ctx.thorough() {
+		np = 600
+	}
+	progs := make([]pingProg, np)
+	for i := range progs {
+		progs[i] = genPingProg(rng)
+	}
+	type pres struct {
+		i                int
+		sh, w, line, exp string
+	}
+	pout := make(chan pres, len(progs))
+	psem := make(chan struct{}, 8)
+	for i := range progs {
+		psem <- struct{}{}
+		go func(i int) {
+			defer func() { <-psem }()
+			r := pres{i: i}
+			var line, want string
+			r.sh, r.w = guarded(40*time.Second, func() (string, string) { return runPingProg(progs[i], &line, &want) })
+			if r.sh != "case-hangs" {
+				r.line, r.exp = line, want
+			}
+			pout <- r
+		}(i)
+	}
+	var lines, expect, what []string
+	for range progs {
+		r := <-pout
+		pp := progs[r.i]
+		rep.eval(fmt.Sprintf("pingprog/%v/%s/%v", pp.Client, pp.Reader, pp.Evs))
+		rep.count("pingprog")
+		if r.sh != "" {
+			rep.violate(Violation{Kind: "property", Shape: r.sh, What: r.w, Replay: pp})
+			continue
+		}
+		if r.line != "" {
+			lines, expect, what = append(lines, r.line), append(expect, r.exp), append(what, fmt.Sprintf("ping registry program %+v", pp))
+		}
+	}
+	askAndCompare(ctx, lines, expect, what, "ping-registry-model-vs-impl")
+	rep.sample(progs[0])
 }
